@@ -49,6 +49,7 @@ type fetchPlan struct {
 	framing    string
 	chunks     []int
 	rounds     int // how many times maybeWebseed is called for the piece (each fetch must have ended before the next)
+	busy       bool // the torrent's event queue is full when the fetch starts, and stays full for a moment
 }
 
 func (p *fetchPlan) String() string {
@@ -63,6 +64,7 @@ func genFetchPlan(t *rapid.T) *fetchPlan {
 	p := &fetchPlan{faults: map[int]fault{}}
 	p.l = genLayout(t, layoutOpts{maxPieces: 4, grow: true, big: true, huge: true})
 	l := p.l
+	p.busy = rapid.IntRange(0, 3).Draw(t, "busyTorrent") == 0
 	p.rounds = 1
 	if l.huge {
 		p.rounds = rapid.IntRange(1, 7).Draw(t, "rounds")
@@ -332,7 +334,17 @@ func fetchCase(t tb, p *fetchPlan) {
 		if !ready {
 			lab = append(lab, "seed-backs-off")
 		}
+		if p.busy && round == 0 {
+			// the torrent is busy: its queue is full, whatever the fetch reports has to wait
+			for len(tr.Event) < cap(tr.Event) {
+				tr.Event <- peer.TorAnnounce{}
+			}
+			lab = append(lab, "torrent-queue-full-during-fetch")
+		}
 		started := tor.VerifMaybeWebseed(ctx, tr, uint32(index), p.idle)
+		if p.busy && round == 0 && started {
+			time.Sleep(4 * time.Millisecond)
+		}
 		if started != (first >= 0 && ready) {
 			fail("maybeWebseed returned %v, the piece has %d absent blocks, the seed is ready: %v", started, nb-bm0.Count(), ready)
 		}
@@ -409,6 +421,8 @@ func fetchCase(t tb, p *fetchPlan) {
 				sawDrop = true
 			case peer.TorHave:
 				hist = append(hist, fmt.Sprintf("TorHave{%d %v}", e.Index, e.Have))
+			case peer.TorAnnounce:
+				// (the filler of a busy torrent's queue)
 			default:
 				hist = append(hist, fmt.Sprintf("%T%+v", e, e))
 			}
